@@ -117,3 +117,87 @@ func H_C16_osdatefmt() {
 	VAssert(sameBytes(out[0], want), "osdatefmt: each directive renders its field, other text is copied: "+format)
 	VReach("end")
 }
+
+// C16.timefields — os.time reads each field of its table as Lua 5.1 does (lua_isnumber: a number or a string that
+// is a numeral): the same civil fields spelled as numbers, as plain decimal strings, zero-padded to two digits
+// ("00", "07") or with a leading blank denote the same instant; an absent hour is noon, absent min/sec are 0.
+// Round-7 seeded change C16-ostime-all-zero-string-field ("00" fell through to the field's default).
+var c16Clocks = [][3]int64{{0, 0, 0}, {12, 0, 0}, {0, 5, 9}, {7, 0, 59}, {23, 59, 59}, {10, 30, 0}, {1, 1, 1}, {0, 0, 30}}
+
+//verif:harness prop=C16 tier=quick bounds="6 boundary days x 8 clock values (incl. every field zero) x 5 spellings of the fields year/month/day/hour/min/sec (numbers, decimal strings, strings zero-padded to two digits, strings with a leading blank, hour/min/sec omitted when they equal their defaults 12/0/0); UTC stub; all concrete per path"
+func H_C16_timefields() {
+	L := newL(Options{}, BaseLibName, OsLibName)
+	day := []int64{0, 59, 11016, 10957, -25508, 19782}[VChoice(6)]
+	c := c16Clocks[VChoice(len(c16Clocks))]
+	sp := VChoice(5)
+	y, m, d := civilFromDays(day)
+	dec := func(v int64) string {
+		if v == 0 {
+			return "0"
+		}
+		neg := v < 0
+		if neg {
+			v = -v
+		}
+		var b []byte
+		for v > 0 {
+			b = append([]byte{byte('0' + v%10)}, b...)
+			v /= 10
+		}
+		if neg {
+			return "-" + string(b)
+		}
+		return string(b)
+	}
+	spell := func(v int64) LValue {
+		switch sp {
+		case 1:
+			return LString(dec(v))
+		case 2:
+			if v >= 0 && v < 10 {
+				return LString("0" + dec(v))
+			}
+			return LString(dec(v))
+		case 3:
+			return LString(" " + dec(v))
+		}
+		return LNumber(float64(v))
+	}
+	tb := L.NewTable()
+	tb.RawSetString("year", spell(y))
+	tb.RawSetString("month", spell(int64(m)))
+	tb.RawSetString("day", spell(int64(d)))
+	if sp == 4 {
+		// defaults: hour 12, min 0, sec 0 — omit whichever field equals its default
+		if c[0] != 12 {
+			tb.RawSetString("hour", LNumber(float64(c[0])))
+		}
+		if c[1] != 0 {
+			tb.RawSetString("min", LNumber(float64(c[1])))
+		}
+		if c[2] != 0 {
+			tb.RawSetString("sec", LNumber(float64(c[2])))
+		}
+	} else {
+		tb.RawSetString("hour", spell(c[0]))
+		tb.RawSetString("min", spell(c[1]))
+		tb.RawSetString("sec", spell(c[2]))
+	}
+	back, err := callLib(L, "os", "time", 1, tb)
+	VAssert(err == nil, "timefields: os.time succeeds")
+	bn, isn := back[0].(LNumber)
+	want := day*86400 + c[0]*3600 + c[1]*60 + c[2]
+	switch sp {
+	case 0:
+		VAssert(isn && int64(bn) == want, "timefields: number fields")
+	case 1:
+		VAssert(isn && int64(bn) == want, "timefields: decimal string fields denote the same instant")
+	case 2:
+		VAssert(isn && int64(bn) == want, "timefields: zero-padded string fields denote the same instant")
+	case 3:
+		VAssert(isn && int64(bn) == want, "timefields: string fields with a leading blank denote the same instant")
+	default:
+		VAssert(isn && int64(bn) == want, "timefields: absent hour is noon, absent min and sec are 0")
+	}
+	VReach("end")
+}
